@@ -129,7 +129,7 @@ def main():
                    "zorg.shared.dates.is_zid/is_short_date_spec"],
         stubs=["c.prepend_zdir over an in-memory FS; print captured", "note_utils.get_note_by_zid/get_notes_by_id answer from the "
                "harness index (real SQLite index in replay)", "init_from_template, subprocess.run, .zoq refresh recorded"],
-        bounds=["%d prefixes x %d words x punctuation x second word x third word x .zo/.zoq x options x 2 index contents; "
+        bounds=["%d prefixes x %d words x punctuation x second word x third word x .zo/.zoq x options x 3 index contents (unique owners; an ID on two pages; an ID twice on one page); "
                 "quick uses sub-menus (second word from 6, punctuation 2, third word 2, options none/-1/2; second index only "
                 "where a word is resolved through it; .zoq only with the primary-ZID prefix), thorough the full menus" % (
                     len(m.PREFIXES), len(m.WORDS))],
